@@ -2,6 +2,7 @@ package schema
 
 import (
 	"fmt"
+	"math"
 	"reflect"
 	"sort"
 	"strings"
@@ -163,6 +164,12 @@ func (e EnumSchema[S, T]) asType(d any) (S, T, error) {
 	if !kindsAgree(dValue.Kind(), unserializedType.Kind()) || !dValue.CanConvert(unserializedType) {
 		return serializedDefaultValue, unserializedDefaultValue, &ConstraintError{
 			Message: fmt.Sprintf("%T is not a valid data type for an %T schema's unserialized type %T", d, e, unserializedType),
+		}
+	}
+	if dValue.CanUint() && dValue.Uint() > math.MaxInt64 {
+		// As in asInt: the conversion to a signed integer would wrap around.
+		return serializedDefaultValue, unserializedDefaultValue, &ConstraintError{
+			Message: fmt.Sprintf("%d does not fit into a 64-bit signed integer.", dValue.Uint()),
 		}
 	}
 	serializedData := dValue.Convert(serializedType).Interface().(S)
